@@ -206,6 +206,9 @@ func runC19(c *Ctx) {
 	ruleNullableTotal(c, p, "C19.nullable-total")
 	ruleDecimalGuard(c, p, "C19.decimal-guard")
 	ruleFreshTargets(c, p, "C19.fresh")
+	ruleMapInfer(c, p, "C19.mapinfer")
+	ruleForwardUnconditional(c, p, "C19.forward-always")
+	ruleLostReceiverWrite(c, p, "C19.receiver")
 	ruleConfigParsed(c, p, "C19.config")
 	ruleSliceOrder(c, p, "C19.slices")
 	ruleAdopt(c, p, "C19.adopt")
@@ -1425,6 +1428,28 @@ func decimalTableSSA(fn *ssa.Function) map[int]int {
 			}
 		}
 	}
+	if t := decimalCascade(fn, prec); t != nil {
+		return t
+	}
+	// the cascade may live in a helper that is handed the parsed precision
+	for _, call := range core.Calls(fn) {
+		g := core.StaticFn(call)
+		if g == nil || g == fn || g.Blocks == nil || pkgOf(g) == nil || pkgOf(g).Path() != core.PkgProto {
+			continue
+		}
+		for i, a := range call.Common().Args {
+			if prec[stripConv(a)] && i < len(g.Params) {
+				if t := decimalCascade(g, map[ssa.Value]bool{g.Params[i]: true}); t != nil {
+					return t
+				}
+			}
+		}
+	}
+	return nil
+}
+
+// decimalCascade walks the comparisons of the values in prec with constants in fn (see decimalTableSSA).
+func decimalCascade(fn *ssa.Function, prec map[ssa.Value]bool) map[int]int {
 	isPrec := func(v ssa.Value) bool { return prec[stripConv(v)] }
 	var tests []*ssa.If
 	for _, b := range fn.Blocks {
